@@ -152,9 +152,11 @@ def daysInMonth (y m : Nat) : Nat :=
 /-- `'/'` -/
 def slash : UInt8 := 47
 
-/-- the subpath `daily_output` derives from a UTC timestamp (seconds since the epoch) -/
-def datePath (ts : Nat) : Bytes :=
-  let c := civilFromDays (ts / 86400)
+/-- `to_string(year) + "/" + to_string(month) + "/" + to_string(day)` -/
+def datePathOf (c : Nat × Nat × Nat) : Bytes :=
   dec c.1 ++ [slash] ++ dec c.2.1 ++ [slash] ++ dec c.2.2
+
+/-- the subpath `daily_output` derives from a UTC timestamp (seconds since the epoch) -/
+def datePath (ts : Nat) : Bytes := datePathOf (civilFromDays (ts / 86400))
 
 end YgmVerif.Out
